@@ -84,6 +84,13 @@ Theorem C12_link_probe_denied : forall v l,
 Proof. exact link_probe_denied. Qed.
 Print Assumptions C12_link_probe_denied.
 
+(* the same through the public calls for a process being torn down (stat unreachable, all
+   other entries gone): cwd() and exe() raise NoSuchProcess; AccessDenied when the probe is refused *)
+Theorem C12_gone_block : forall c denied esrch,
+  run_ops c None (gone_ops denied esrch) = spec_gone denied.
+Proof. exact gone_block. Qed.
+Print Assumptions C12_gone_block.
+
 (* exe() of a live process: the cleaned link target, or -- link withheld (ENOENT/ESRCH) --
    cmdline()[0] when that is an absolute path to an executable regular file ([exec_file]:
    absolute AND a regular file AND executable; a searchable directory, a file without x
